@@ -42,7 +42,7 @@ pub const OP_NAMES: [&str; 37] = [
     "jh512", "skein512_256", "blake224", "blake384", "jh224", "jh384", "chacha8", "chacha12", "xchacha8", "xchacha12", "xchacha20", "threefish512", "threefish1024_tweak", "block_api_refill4",
     "skein256_512", "skein1024_256", "groestl256_chunked", "blake256_chunked",
     // long single calls (bulk paths): several KiB per call, different data in every thread
-    "chacha20_4200", "blake256_2100", "blake512_4300", "groestl256_600", "jh256_300", "skein512_1100",
+    "chacha8_4200", "blake256_2100", "blake512_4300", "groestl256_600", "jh256_300", "skein512_1100",
 ];
 pub const NOPS: u64 = 37;
 
@@ -153,7 +153,8 @@ fn op(kind: u64, tag: u64) -> u64 {
         27 => fold(&Skein256::<U64>::digest(&msg[..n])),
         28 => fold(&Skein1024::<U32>::digest(&msg[..n])),
         31 => {
-            let mut c = ChaCha20::new(GenericArray::from_slice(&msg[..32]), GenericArray::from_slice(&msg[32..40]));
+            // (the 8-round variant: the same code path for a fraction of the interpreter time)
+            let mut c = ChaCha8::new(GenericArray::from_slice(&msg[..32]), GenericArray::from_slice(&msg[32..40]));
             let mut buf = long_msg(tag, 4200);
             c.apply_keystream(&mut buf);
             fold(&buf)
@@ -182,13 +183,42 @@ fn op(kind: u64, tag: u64) -> u64 {
 /// workload `w`: (threads, per-thread op lists). Every thread's FIRST call is of the focus kind.
 fn workload(base: u64, w: u64) -> Vec<Vec<(u64, u64)>> {
     let mut s = base ^ w.wrapping_mul(0x1234_5678_9abc_def1);
+    if w >= 2 * NOPS {
+        // "hammer" workloads: three threads make the same kind of short call ten times each, alternating between two
+        // arguments of their own - anything cached or shared between calls (per process, not per instance) is written and
+        // re-read by all of them all the time
+        let focus = (w - 2 * NOPS) % 31;
+        let mut out = Vec::new();
+        for _ in 0..3 {
+            let (a, b) = (splitmix(&mut s), splitmix(&mut s));
+            let pat = splitmix(&mut s);
+            let mut v = vec![(focus, a)];
+            for i in 0..9 {
+                v.push((focus, if (pat >> i) & 1 == 0 { a } else { b }));
+            }
+            out.push(v);
+        }
+        return out;
+    }
     let focus = w % NOPS;
-    let threads = if focus >= 31 { 3 + splitmix(&mut s) % 2 } else { 2 + splitmix(&mut s) % 3 };
-    // long calls are expensive under the interpreter: such a workload is the racing first calls only
+    let threads = if focus >= 31 { 3 } else { 2 + splitmix(&mut s) % 3 };
     let steps = if focus >= 31 { 1 } else { 2 + splitmix(&mut s) % 3 };
     let mut out = Vec::new();
-    for _ in 0..threads {
+    for t in 0..threads {
         let mut v = vec![(focus, splitmix(&mut s))];
+        if focus >= 31 {
+            // long calls are expensive under the interpreter: such a workload is long calls of one kind only - one to three
+            // per thread, so that a thread can enter the bulk path again while another one is still inside its first call
+            // (the first thread makes one call, the second at least two)
+            let more = match t {
+                0 => 0,
+                1 => 1,
+                _ => splitmix(&mut s) % 2,
+            };
+            for _ in 0..more {
+                v.push((focus, splitmix(&mut s)));
+            }
+        }
         for _ in 1..steps {
             // later calls: sometimes exactly the same call again (same key / message: a value cached by the first call must
             // still belong to it), otherwise other entry points, racing with the other threads' first calls
@@ -375,8 +405,11 @@ fn main() {
             let plan = workload(base, w);
             let expected: Vec<u64> = table[w as usize].split(',').filter_map(|x| u64::from_str_radix(x, 16).ok()).collect();
             let threads = plan.len();
-            println!("WORKLOAD {} threads={} first={}", w, threads, OP_NAMES[(w % NOPS) as usize]);
-            let barrier = Arc::new(Barrier::new(threads));
+            println!("WORKLOAD {} threads={} first={}", w, threads, if w >= 2 * NOPS { format!("{}_x10", OP_NAMES[((w - 2 * NOPS) % 31) as usize]) } else { OP_NAMES[(w % NOPS) as usize].to_string() });
+            // "seq": the same threads, one after the other (each joined before the next starts): tells whether a failure
+            // needs the threads to overlap at all
+            let seq = a.get(6).map(|x| x == "seq").unwrap_or(false);
+            let barrier = Arc::new(Barrier::new(if seq { 1 } else { threads }));
             // Relaxed counters only: logging must not add a happens-before edge that could hide a race
             let mismatches = Arc::new(AtomicU64::new(0));
             let first_bad = Arc::new(AtomicU64::new(u64::MAX));
@@ -386,7 +419,7 @@ fn main() {
                 let (b, mm, fb) = (barrier.clone(), mismatches.clone(), first_bad.clone());
                 let exp: Vec<u64> = expected[off..off + p.len()].to_vec();
                 off += p.len();
-                hs.push(std::thread::spawn(move || {
+                let h = std::thread::spawn(move || {
                     b.wait();
                     for (i, (k, tag)) in p.into_iter().enumerate() {
                         let got = op(k, tag);
@@ -395,7 +428,12 @@ fn main() {
                             fb.fetch_min(t as u64 * 1000 + i as u64, Ordering::Relaxed);
                         }
                     }
-                }));
+                });
+                if seq {
+                    h.join().expect("thread panicked");
+                } else {
+                    hs.push(h);
+                }
             }
             for h in hs {
                 h.join().expect("thread panicked");
